@@ -2,6 +2,7 @@ package main
 
 import (
 	"fmt"
+	"os"
 	"time"
 
 	"github.com/robfig/cron/v3"
@@ -91,6 +92,46 @@ func maxI(xs ...int64) int64 {
 	return m
 }
 
+// bruteTable enumerates a five-field / descriptor schedule WITHOUT cron's Next: every minute of
+// [lo, hi] is tested against the parsed field bit sets on the wall clock of the schedule's zone
+// (robfig semantics: day-of-month and day-of-week are and-ed when one of them is '*', else or-ed).
+// ok = false when the zone changes its offset inside the window (Next has its own DST rules).
+func bruteTable(ss *cron.SpecSchedule, lo, hi int64) ([]int64, bool) {
+	const star = uint64(1) << 63
+	loc := ss.Location
+	if loc == time.Local {
+		loc = time.Local
+	}
+	out := []int64{}
+	first := true
+	var off0 int
+	for m := (lo/(60*sec) + 1) * 60 * sec; m <= hi; m += 60 * sec {
+		t := time.Unix(0, m).In(loc)
+		_, off := t.Zone()
+		if first {
+			off0, first = off, false
+		} else if off != off0 {
+			return nil, false
+		}
+		if ss.Second&1 == 0 || ss.Minute&(1<<uint(t.Minute())) == 0 || ss.Hour&(1<<uint(t.Hour())) == 0 ||
+			ss.Month&(1<<uint(t.Month())) == 0 {
+			continue
+		}
+		dom := ss.Dom&(1<<uint(t.Day())) > 0
+		dow := ss.Dow&(1<<uint(t.Weekday())) > 0
+		day := dom || dow
+		if ss.Dom&star > 0 || ss.Dow&star > 0 {
+			day = dom && dow
+		}
+		if day {
+			out = append(out, m)
+		}
+	}
+	return out, true
+}
+
+var bruteChecked int
+
 func schedTokens(sid, tz int, lo, hi int64) ([]int64, bool) {
 	if p, ok := everyPeriod[sid]; ok {
 		return []int64{int64(sid), int64(tz), 1, p}, true
@@ -99,6 +140,25 @@ func schedTokens(sid, tz int, lo, hi int64) ([]int64, bool) {
 	pts, ok := points(sch, lo, hi, 3)
 	if !ok {
 		return nil, false
+	}
+	if ss, isSpec := sch.(*cron.SpecSchedule); isSpec && hi-lo <= 3*86400*sec && (lo/sec)%3 == 0 {
+		// the Next-chain against an enumeration that does not call Next
+		if bt, ok := bruteTable(ss, lo, hi); ok {
+			k := 0
+			for _, p := range pts {
+				if p > hi {
+					break
+				}
+				if k >= len(bt) || bt[k] != p {
+					panic(fmt.Sprintf("schedule table of %q (zone id %d): Next-chain and minute-by-minute enumeration differ at %d", schedPool[sid], tz, p))
+				}
+				k++
+			}
+			if k != len(bt) {
+				panic(fmt.Sprintf("schedule table of %q (zone id %d): the Next-chain misses %d", schedPool[sid], tz, bt[k]))
+			}
+			bruteChecked++
+		}
 	}
 	if ss, isSpec := sch.(*cron.SpecSchedule); isSpec && schedKind(sid) == kDescriptor {
 		// the oracle itself, read on the wall clock of the zone the spec names
@@ -478,6 +538,7 @@ func genHistory(r *vh.Rng) ([]int64, any, bool) {
 		nops := r.Range(3, 12)
 		hi := t
 		nrec := 0
+		stale := false
 		for k := 0; k < nops; k++ {
 			switch x := r.Intn(100); {
 			case x < 55:
@@ -498,7 +559,20 @@ func genHistory(r *vh.Rng) ([]int64, any, bool) {
 					}
 				}
 				hi = maxI(hi, t)
-				ops = append(ops, 0, t, vh.B(r.Chance(1, 15)))
+				switch z := r.Intn(12); {
+				case z == 0:
+					// the status write of this reconcile is lost (UpdateStatus fails, sync swallows it)
+					ops = append(ops, 9, t, vh.B(r.Chance(1, 15)))
+					stale = true
+				case z == 1:
+					// the informer still shows the initial status; the write-back may be lost too
+					ops = append(ops, 6)
+					ops = append(ops, status...)
+					ops = append(ops, vh.B(r.Chance(1, 2)), t, vh.B(r.Chance(1, 15)))
+					stale = true
+				default:
+					ops = append(ops, 0, t, vh.B(r.Chance(1, 15)))
+				}
 				nrec++
 			case x < 70:
 				name := h.nameAt(h.pointBefore(t, created))
@@ -529,8 +603,27 @@ func genHistory(r *vh.Rng) ([]int64, any, bool) {
 				}
 				ops = append(ops, 3)
 				ops = append(ops, j.enc()...)
-			case x < 93:
+			case x < 92:
 				ops = append(ops, 4, vh.B(r.Chance(1, 2)))
+			case x < 95:
+				ops = append(ops, 7)
+				switch r.Intn(3) {
+				case 0:
+					ops = append(ops, 0)
+				case 1:
+					ops = append(ops, 1, h.gap/sec/2+1)
+				default:
+					ops = append(ops, 1, 100*h.gap/sec)
+				}
+			case x < 97:
+				ops = append(ops, 8)
+				for i := 0; i < 2; i++ {
+					if r.Chance(1, 3) {
+						ops = append(ops, 0)
+					} else {
+						ops = append(ops, 1, int64(r.Intn(4)))
+					}
+				}
 			default:
 				ops = append(ops, 5, int64(r.Intn(3)))
 			}
@@ -544,7 +637,7 @@ func genHistory(r *vh.Rng) ([]int64, any, bool) {
 			continue
 		}
 		in := cat(st, []int64{vh.B(lenient)}, spec, status, jt, []int64{nextUID}, []int64{int64(nops)}, ops)
-		desc := map[string]any{"schedule": schedPool[h.sid], "tz": tzPool[h.tz], "ops": nops, "reconciles": nrec, "jobs": len(jobs)}
+		desc := map[string]any{"schedule": schedPool[h.sid], "tz": tzPool[h.tz], "ops": nops, "reconciles": nrec, "jobs": len(jobs), "staleOrLostWrite": stale}
 		return in, desc, nrec >= 2 && spec[1] == 0
 	}
 }
@@ -655,6 +748,27 @@ func gen(rng *vh.Rng, n int, emit func(id string, sel int, in []int64, kind stri
 			in, _ := c.tokens()
 			emit(fmt.Sprintf("cron-descriptor-zone-%d-%d", j, k), 10, in, "cron/choice-known", true, c.desc())
 		}
+	}
+
+	// adoption by name (seed C18-r4-1): a running job of this CronJob already carries the name of
+	// the first schedule point; Forbid; reconcile at T1 (AlreadyExists -> adopted), then at T2
+	{
+		t1, t2 := t0+3600*sec, t0+7200*sec
+		st, _ := schedTokens(2, 1, t0, t2+10*sec)
+		job := mjob{name: t1 / sec / 60, uid: 1, owner: 1, phase: 0, created: ptrI(t0 + 1800*sec)}
+		for i, lenient := range []int64{1, 0} {
+			in := cat(st, []int64{lenient}, []int64{t0 + 1800*sec, 0, 1, 0, 0, 0, 1}, []int64{0, 0, 0},
+				[]int64{1}, job.enc(), []int64{100}, []int64{2}, []int64{0, t1 + 5*sec, 0}, []int64{0, t2 + 5*sec, 0})
+			emit(fmt.Sprintf("cron-adoption-%d", i), 20, in, "cron/history-known", true,
+				map[string]any{"schedule": schedPool[2], "what": "AlreadyExists on a running job of this CronJob under Forbid", "jobClientIgnoresNamespace": lenient == 1})
+		}
+		// a lost status write: T1 is started, the write is lost, the job completes, the history limit 0
+		// removes it, the next reconcile starts T1 again (known finding C18/lost-status-write)
+		in := cat(st, []int64{0}, []int64{t0 + 1800*sec, 0, 0, 0, 1, 0, 1, 0, 1}, []int64{0, 0, 0},
+			[]int64{0}, []int64{100}, []int64{3}, []int64{9, t1 + 5*sec, 0}, []int64{1, t1 / sec / 60, 1, 1, t1 + 10*sec},
+			[]int64{0, t1 + 20*sec, 0})
+		emit("cron-lost-status-write", 20, in, "cron/history-known", true,
+			map[string]any{"schedule": schedPool[2], "what": "UpdateStatus fails after the Create (sync swallows the error), the run completes and is removed by successfulJobsHistoryLimit=0, the same schedule time is started again"})
 	}
 
 	// --- random streams ---
@@ -786,4 +900,5 @@ func gen(rng *vh.Rng, n int, emit func(id string, sel int, in []int64, kind stri
 		}
 		emit(fmt.Sprintf("malformed-cron-%d", i), 10, in, "malformed", false, nil)
 	}
+	fmt.Fprintf(os.Stderr, "schedule tables re-enumerated minute by minute without Next: %d\n", bruteChecked)
 }
